@@ -22,6 +22,7 @@ type Spec struct {
 	Data []byte `json:"data,omitempty"`
 	Off  int64  `json:"off,omitempty"`
 	N    int64  `json:"n,omitempty"`
+	Over bool   `json:"over,omitempty"` // section: window declared longer than the source has left
 	Subs []Spec `json:"subs,omitempty"`
 }
 
@@ -111,6 +112,15 @@ func build(s Spec) (*built, error) {
 		b, err := build(s.Subs[0])
 		if err != nil {
 			return nil, err
+		}
+		if s.Over {
+			// a window declared longer than what its source has left (like io.SectionReader
+			// over a shorter file): the bits that exist in the SOURCE are all there is
+			if s.Off < 0 || s.N < 0 || s.Off > int64(len(b.ref)) {
+				b.close()
+				return nil, fmt.Errorf("window outside")
+			}
+			return &built{r: bitio.NewSectionReader(b.r, s.Off, s.N), ref: b.ref.Slice(s.Off, int64(len(b.ref))), cancel: b.cancel}, nil
 		}
 		if s.Off < 0 || s.N < 0 || s.Off+s.N > int64(len(b.ref)) {
 			b.close()
@@ -280,11 +290,56 @@ func wrap1(s Spec, l int64, fewWindows bool) []Spec {
 	return out
 }
 
+func specDepth(s Spec) int {
+	d := 0
+	for _, x := range s.Subs {
+		if k := specDepth(x) + 1; k > d {
+			d = k
+		}
+	}
+	return d
+}
+
+func hasOver(s Spec) bool {
+	if s.Over {
+		return true
+	}
+	for _, x := range s.Subs {
+		if hasOver(x) {
+			return true
+		}
+	}
+	return false
+}
+
+// overlong: sections declared longer than what their source has left, directly on
+// every leaf and on a section that ends before its own source does (so that there
+// are source bits behind the outer window which the inner one must never show).
+func overlong(lv []Spec) []Spec {
+	var out []Spec
+	for _, l := range lv {
+		L := refLen(l)
+		if L < 12 {
+			continue
+		}
+		for _, w := range [][2]int64{{0, L + 1}, {3, L + 9}, {L - 1, 9}} {
+			out = append(out, Spec{K: "section", Off: w[0], N: w[1], Over: true, Subs: []Spec{l}})
+		}
+		n1 := L - 7
+		outer := Spec{K: "section", Off: 3, N: n1, Subs: []Spec{l}}
+		for _, w := range [][2]int64{{0, n1 + 1}, {0, n1 + 4}, {1, n1 + 3}, {5, n1 + 8}, {n1 - 1, 9}, {n1, 3}} {
+			out = append(out, Spec{K: "section", Off: w[0], N: w[1], Over: true, Subs: []Spec{outer}})
+		}
+	}
+	return out
+}
+
 // compositions enumerates the composition family for a tier, simplest first.
 func compositions(seed int64, thorough bool) []Spec {
 	lv := leaves(seed, thorough)
 	var out []Spec
 	out = append(out, lv...)
+	out = append(out, overlong(lv)...)
 	// depth 1
 	var d1 []Spec
 	for _, l := range lv {
